@@ -1,5 +1,7 @@
 import RTV.Lemmas.ChoiceDecA
 import RTV.Lemmas.ChoiceDecB
+import RTV.Lemmas.ChoiceDecC
+import RTV.Lemmas.ChoiceScore
 /-!
 # C20 — yes/no answers keep their polarity
 
@@ -66,7 +68,10 @@ theorem reported_score_unit_interval (E : Env) (q : Str) (rs : List MR) (h : rec
     ∀ r ∈ rs, r.scoreZero = true := by
   unfold recognise at h
   cases he : extract E q with
-  | none => simp [he] at h
+  | none =>
+    simp [he] at h
+    obtain ⟨_, rfl⟩ := h
+    intro r hr; simp at hr
   | some ers =>
     simp [he] at h
     subst h
@@ -75,11 +80,30 @@ theorem reported_score_unit_interval (E : Env) (q : Str) (rs : List MR) (h : rec
     obtain ⟨e, _, rfl⟩ := hr
     rfl
 
-/-- NEGATIVE (extractor-internal, never reported): `match_value` itself can leave `[0, 1]`, because
-`StringUtility.index_of` answers `1` for "not found": `match_value(['a'], ['x','x','x'], 0) = 5.8`
-(replayed on the implementation by the correspondence, recorded in the evidence). -/
-theorem matchValue_can_exceed_one :
-    matchValue [[97]] [[120], [120], [120]] 0 = some ⟨174, 30⟩ ∧ (174 : Int) > 30 := by decide
+/-- C20 (score, extractor): `match_value` lies in `[0, 1]` for **all** token lists and every start position `≥ 0`
+(`0 ≤ 0.4 + 0.6·x ≤ 1` for the rational `x` the code computes; no ZeroDivisionError) — now that
+`StringUtility.index_of` reports a miss as `-1` (/repo 4afb7c9b1). -/
+theorem score_unit_interval (source match_ : List Str) (st : Int) (hst : 0 ≤ st) :
+    ∃ sc, matchValue (-1) source match_ st = some sc ∧ 0 < sc.den ∧ 0 ≤ sc.num ∧ sc.num ≤ sc.den :=
+  matchValue_unit_interval source match_ st hst
+
+/-- C20 (several expressions of one polarity): for every two listed expressions of the same polarity exactly one
+entity is reported, a listed expression of that polarity at its own place. -/
+theorem same_polarity_one_entity : ∀ b ∈ [true, false], ∀ w1 ∈ alts b, ∀ w2 ∈ alts b,
+    oneListed (w1 ++ [32] ++ w2) (recognise genEnv (w1 ++ [32] ++ w2)) = true := by
+  intro b hb w1 h1 w2 h2
+  have h : samePolarityOK genEnv = true := by rw [← fastEnv_eq]; exact same_polarity_fast
+  unfold samePolarityOK at h
+  exact List.all_eq_true.1 (List.all_eq_true.1 (List.all_eq_true.1 h b hb) w1 h1) w2 h2
+
+/-- C20 (repeated expression, `no no`, `yes yes yes`): one entity, the listed expression. -/
+theorem repeated_expression_one_entity : ∀ b ∈ [true, false], ∀ w ∈ alts b,
+    oneListed (w ++ [32] ++ w) (recognise genEnv (w ++ [32] ++ w)) = true ∧
+    oneListed (w ++ [32] ++ w ++ [32] ++ w) (recognise genEnv (w ++ [32] ++ w ++ [32] ++ w)) = true := by
+  intro b hb w hw
+  have h : repeatsOK genEnv = true := by rw [← fastEnv_eq]; exact repeats_fast
+  unfold repeatsOK at h
+  simpa using List.all_eq_true.1 (List.all_eq_true.1 h b hb) w hw
 
 /-- the rewrite of the regenerated TrueRegex text: surrogate pairs become the code point they encode -/
 theorem rewrite_true_regex :
@@ -87,7 +111,20 @@ theorem rewrite_true_regex :
       ofString "\\b(true|yes|yep|yup|yeah|y|sure|ok|agree)\\b|(\\U0001F44D|\\U0001F44C|\\U0001f44c)(\\U0001F3FB|\\U0001F3FC|\\U0001F3FD|\\U0001F3FE|\\U0001F3FF)?" := by
   decide +kernel
 
-/-! ### regression theorems about the code before the fixes (defect #14) -/
+/-! ### regression theorems about the code before the fixes (defect #14; `index_of` / `parse_results`) -/
+
+/-- REGRESSION (fixed by /repo 4afb7c9b1): while `index_of` answered `1` on a miss, `match_value` could leave
+`[0, 1]`: `match_value(['a'], ['x','x','x'], 0) = 5.8`. -/
+theorem prefix_matchValue_can_exceed_one :
+    matchValue 1 [[97]] [[120], [120], [120]] 0 = some ⟨174, 30⟩ ∧ (174 : Int) > 30 := by decide
+
+/-- REGRESSION (fixed by /repo 4afb7c9b1 + 74161fefc): `not ok not sure` ended in a division by zero inside
+`match_value`, which `ChoiceModel.parse` turned into an UnboundLocalError; now it is the entity `not ok`. -/
+theorem prefix_not_ok_not_sure_raised :
+    recognise genEnvPreFix2 (ofString "not ok not sure") = none ∧
+    recognise genEnv (ofString "not ok not sure") = some [⟨0, 5, ofString "not ok", false, true⟩] := by
+  rw [← fastEnv_eq, ← fastEnvPreFix2_eq]; decide +kernel
+
 
 /-- REGRESSION (`emoji-unreachable`, fixed by /repo 863060d4d): the pre-fix rewrite turned `👍` into the
 literal text `uDC4D` — no thumbs-up left in the pattern. -/
